@@ -102,6 +102,20 @@
 	#define HFSM2_BREAK_AVAILABLE()										   false
 #endif
 
+#ifdef HFSM2_VERIF
+	// verification hook: route HFSM2_BREAK() / HFSM2_ASSERT() to an external handler
+	extern "C" void hfsm2_verif_break(const char* file, int line);
+
+	#undef  HFSM2_BREAK
+	#undef  HFSM2_BREAK_AVAILABLE
+	#define HFSM2_BREAK()					 hfsm2_verif_break(__FILE__, __LINE__)
+	#define HFSM2_BREAK_AVAILABLE()											true
+
+	#ifndef HFSM2_ENABLE_ASSERT
+		#define HFSM2_ENABLE_ASSERT
+	#endif
+#endif
+
 // - - - - - - - - - - - - - - - - - - - - - - - - - - - - - - - - - - - - - - -
 
 #ifdef _DEBUG
